@@ -169,6 +169,16 @@ func rtAdmitCell(t *testing.T, rec *Rec, g *Gates, scn string, cell map[string]a
 		s.Close(true)
 	}
 	synctest.Wait()
+	// a session that is closing gracefully: no poll pending, the close packet waits for the next one
+	var sg *Sess
+	if sidc == "closing" {
+		sg, _ = w.Handshake(4, false, false, ReqOpt{})
+		synctest.Wait()
+		if s := w.Sock(sg.Sid); s != nil {
+			s.Close(false)
+		}
+		synctest.Wait()
+	}
 	switch enabled {
 	case "p":
 		w.Srv.Opts().SetTransports(types.NewSet("polling"))
@@ -184,6 +194,8 @@ func rtAdmitCell(t *testing.T, rec *Rec, g *Gates, scn string, cell map[string]a
 		sid = "nosuchsessionid"
 	case "closed":
 		sid = sc.Sid
+	case "closing":
+		sid = sg.Sid
 	case "known-same":
 		if transport == "websocket" {
 			sid = sw.Sid
@@ -221,7 +233,7 @@ func rtAdmitCell(t *testing.T, rec *Rec, g *Gates, scn string, cell map[string]a
 	} else {
 		hdr["Origin"] = []string{"http://ok.example"}
 	}
-	obs := map[string]any{"via": "none", "status": 0, "code": -1, "message": "", "text": "", "connErr": 0, "created": false, "disturbed": false}
+	obs := map[string]any{"via": "none", "status": 0, "code": -1, "message": "", "text": "", "connErr": 0, "created": false, "disturbed": false, "closingEnded": false}
 	if upgrade {
 		if method != "GET" || origin == "ctl" {
 			obs["via"] = "skipped"
@@ -263,6 +275,10 @@ func rtAdmitCell(t *testing.T, rec *Rec, g *Gates, scn string, cell map[string]a
 	_, inP := w.Srv.Clients().Load(sp.Sid)
 	_, inW := w.Srv.Clients().Load(sw.Sid)
 	obs["disturbed"] = !(okP && okW && inP && inW)
+	if sg != nil {
+		_, in := w.Srv.Clients().Load(sg.Sid)
+		obs["closingEnded"] = !in && w.Sock(sg.Sid) != nil && w.Sock(sg.Sid).ReadyState() == "closed"
+	}
 	rec.Log("rt.cell", "scn", scn, "cell", cell, "obs", obs)
 	w.quietEnd()
 }
